@@ -272,6 +272,7 @@ pub fn run(e: &'static Engine) {
          vs model differences are diagnostic only (counter score_model_mismatch). Non-trivial: best two candidates within 10 points, \
          or a row-only scorer would have a different arg-min; distinct by case hash.",
     );
+    e.extend_rule("enumerated extreme textures (flat, mask-pattern, chequer, stripe and finder-ratio fills in both polarities: the largest penalty terms a version can produce), each after a generated prelude.");
     e.assume("hook: verif_hooks::record_candidate records the candidate exactly as scored; inert unless armed");
     e.assume("'10 per 5% step' is read on the floored integer percentage as in the crate's documented table");
     crate::engine::run_regress(e, &|c, o| replay(e, c, o));
